@@ -276,7 +276,7 @@ func (di *DescriptionBlock) Unpack(data []byte) (n uint, err error) {
 
 			// known DIBs without data will be silently ignored.
 			if length > 2 {
-				_, err = u.Unpack(data[n+2 : n+uint(length)-2])
+				_, err = u.Unpack(data[n+2 : n+uint(length)])
 				if err != nil {
 					return 0, err
 				}
